@@ -7,7 +7,7 @@ import token as pytoken
 
 from vlib.core import AnalysisError, Report
 from vlib.guards import always_exits
-from vlib.match import FI, X, atoms, expand_use, nodes
+from vlib.match import FI, X, atoms, expand_use, has_call, nodes
 from vlib.srcindex import SourceIndex, attr_chain, const_str, unparse, walk_no_nested
 
 EXPLANATION = (
@@ -186,6 +186,64 @@ def rule_bracket_layout(rep: Report, tz) -> None:
 		r.check(ok, key, (TOKENIZER_PY, e.lineno), f'`{unparse(e)[:90]}` can execute while context.enclosure > 0: a line break inside brackets would then change the indentation state or emit layout tokens (layout inside brackets must be insignificant)', unparse(e)[:100])
 
 
+def rule_indent_state(rep: Report, tz, tk) -> None:
+	"""after a line break outside brackets the nesting state equals the indentation level of the NEW line: the width handed to Context.to_nest is the
+	number of characters after the LAST line break of the token text, `nest` is set to the level to_nest returns (not stepped by a constant), and the
+	number of DEDENT tokens is the difference of the two levels."""
+	r = rep.rule('C13/indent-state-follows-last-line', 'handle_white_space measures the indent as the text after the last "\\n" of the line-break token, assigns context.nest the level Context.to_nest returns, and emits (old level - new level) DEDENTs', floor=4)
+	f = tz.func('Tokenizer.handle_white_space')
+	fx = FI(f)
+	cparam = f.params()[1] if len(f.params()) > 1 else 'context'
+	tok_cls = tk.cls('Token')
+
+	def through_property(e: ast.AST, depth: int = 0) -> ast.AST:
+		"""`token.<prop>` where <prop> is a property of Token stands for the property's (single) return expression"""
+		if depth < 3 and isinstance(e, ast.Attribute) and tok_cls.method(e.attr) is not None and e.attr not in ('string', 'type'):
+			g = tok_cls.method(e.attr)
+			rets = [n.value for n in nodes(FI(g), ast.Return) if n.value is not None]
+			if len(rets) == 1:
+				return through_property(rets[0], depth + 1)
+		return e
+
+	nests = [c_ for c_ in nodes(fx, ast.Call) if unparse(c_.func) == f'{cparam}.to_nest' and len(c_.args) == 1]
+	if not nests:
+		r.skip('indent-width', f.where, 'handle_white_space no longer calls Context.to_nest(<indent width>)')
+	for c_ in nests:
+		w = through_property(c_.args[0])
+		src = unparse(w)
+		last_line_forms = (".split('\\n')[-1])", ".rsplit('\\n', 1)[-1])", ".rpartition('\\n')[2])", ".rpartition('\\n')[-1])")
+		if isinstance(w, ast.Call) and unparse(w.func) == 'len' and src.endswith(last_line_forms):
+			r.ok('indent-width', (TOKENIZER_PY, c_.lineno))
+		elif 'splitlines' in src or '.split()' in src or 'strip(' in src or "split('\\n')[0]" in src or "find('\\n')" in src.replace('rfind', ''):
+			r.violate('indent-width', (TOKENIZER_PY, c_.lineno), f'the indent width is computed as `{src}`, which is not the length of the text after the last line break of the token: splitlines() drops a trailing empty line (a token ending in "\\n" then reports the previous line\'s trailing blanks, so trailing spaces or a blank line before a dedent change INDENT/DEDENT), strip()/split() discard the very blanks that are counted', src)
+		else:
+			r.skip('indent-width', (TOKENIZER_PY, c_.lineno), f'indent width expression `{src}` is not one of the recognised last-line forms')
+	# writes of the nesting state after a line break (the EOF branch resets to 0)
+	level = {unparse(c_) for c_ in nests}
+	for n in nodes(fx, (ast.Assign, ast.AugAssign)):
+		tgt = n.targets[0] if isinstance(n, ast.Assign) else n.target
+		if unparse(tgt) != f'{cparam}.nest':
+			continue
+		if isinstance(n, ast.AugAssign):
+			r.violate(f'nest-write:{unparse(n)}', (TOKENIZER_PY, n.lineno), f'`{unparse(n)}` steps the nesting level by a constant, but one line break can close several blocks at once (dedent by two or more levels): the level must be assigned the value Context.to_nest returns for the new line, or later lines are attached to the wrong block', unparse(n))
+			continue
+		v = unparse(n.value)
+		r.check(v in level or v == '0', f'nest-write:{unparse(n)[:60]}', (TOKENIZER_PY, n.lineno), f'context.nest is assigned `{v}`; after a line break it must equal the level of the new line ({sorted(level)}), or 0 at EOF', unparse(n))
+	# DEDENT multiplicity: [token.to_dedent()] * K
+	for n in nodes(fx, ast.BinOp):
+		if isinstance(n.op, ast.Mult) and has_call(n.left, 'to_dedent'):
+			k = unparse(n.right)
+			ok = k == f'{cparam}.nest' or any(k in (f'{cparam}.nest - {lv}', f'({cparam}.nest - {lv})') for lv in level)
+			r.check(ok, f'dedent-count:{k[:50]}', (TOKENIZER_PY, n.lineno), f'DEDENT tokens are emitted `{k}` times; closing blocks needs (current level - level of the new line) of them (all open levels at EOF)', unparse(n))
+	dedent_lists = [n for n in nodes(fx, ast.BinOp) if isinstance(n.op, ast.Mult) and has_call(n.left, 'to_dedent')]
+	if not dedent_lists:
+		singles = [n for n in nodes(fx, ast.Return) if n.value is not None and has_call(n.value, 'to_dedent')]
+		for n in singles:
+			r.violate('dedent-count:1', (TOKENIZER_PY, n.lineno), 'a fixed number of DEDENT tokens is emitted per line break; a dedent by several levels needs one DEDENT per closed level', unparse(n)[:120])
+		if not singles:
+			r.skip('dedent-count', f.where, 'no DEDENT emission found in handle_white_space')
+
+
 def rule_source_map(rep: Report, tk) -> None:
 	"""a column is the offset minus the start of *its own* line, i.e. one past the LAST line break before that offset. Begin and end columns are sibling
 	computations and must use the same primitive (backward search bounded by the offset itself)"""
@@ -320,6 +378,7 @@ def run(rep: Report, tier: str) -> None:
 	ru.check(reads <= {'string'}, 'parser-matches-by-string', ct.where, f'SyntaxParser._compare_token reads token.{sorted(reads)}; the grammar tokenizer shifts symbol offsets after "/", which is harmless only while terminals are matched by string')
 
 	rule_bracket_layout(rep, tz)
+	rule_indent_state(rep, tz, tk)
 	rule_source_map(rep, tk)
 
 	# domain order
